@@ -1,6 +1,7 @@
 """Kernels of KeyCache (_client.py): C10."""
 import ast
 
+from ..flow import Flow
 from ..kernels import Kernel as K, Unsupported
 
 Z, B = "Z", "bool"
@@ -65,4 +66,18 @@ TWINS = [
      {"async_lookup_dc": "lookup_dc", "_async_get_key": "_sync_get_key"}),
     ("C10", "_client.py", "ncrypt_protect_secret", "async_ncrypt_protect_secret",
      {"async_lookup_dc": "lookup_dc", "_async_get_key": "_sync_get_key"}),
+]
+
+
+# whole functions as Prelude/PyAst syntax (gen/F_cache.v); world coq/Flow/World_cache.v, tie theorems in coq/Proofs/Flow_cache_*.v
+FLOWS = [
+    Flow("k_flow_keycache_init", "_client.py", "KeyCache.__init__", props=("C10",)),
+    Flow("k_flow_keycache_load_key", "_client.py", "KeyCache.load_key", props=("C10",)),
+    # KeyCache._get_key is refused by the translator ("subscript assignment to a non-local":
+    # self._seed_keys.setdefault(..).setdefault(..)[l0] = gke stores through a call chain): no flow, covered by the kernels above
+    Flow("k_flow_keycache_store_key", "_client.py", "KeyCache._store_key", props=("C10",)),
+    Flow("k_flow_ncrypt_unprotect_secret", "_client.py", "ncrypt_unprotect_secret", props=("C10",)),
+    Flow("k_flow_ncrypt_protect_secret", "_client.py", "ncrypt_protect_secret", props=("C10",)),
+    Flow("k_flow_async_ncrypt_unprotect_secret", "_client.py", "async_ncrypt_unprotect_secret", props=("C10",)),
+    Flow("k_flow_async_ncrypt_protect_secret", "_client.py", "async_ncrypt_protect_secret", props=("C10",)),
 ]
